@@ -57,7 +57,7 @@ def eq(a, b):
 
 
 def ne(a, b):
-    return ["not", eq(a, b)]
+    return canon(["not", eq(a, b)])
 
 
 def lor(a, b):
